@@ -451,12 +451,41 @@ type cliScript struct {
 	masks     []int64
 	ok        []string
 	user      string
+	// which command the request names: cmdSet=false is the fixed request of the older cases
+	// (Command=60007, no AuthCommand); otherwise each attribute is sent iff non-nil
+	cmdSet    bool
+	cmd, acmd *int64
+}
+
+// pcEntry: the policy a server serves one command under (ServerConfigForCommand).
+type pcEntry struct {
+	cmd              int64
+	auth, enc, integ string
+	methods          []string
 }
 
 type serverCfg struct {
 	auth, enc, integ string
 	methods, ciphers []string
 	tweak            func(*security.SecurityConfig)
+	perCmd           []pcEntry // per-command policies; the fields above are then the connection's default policy
+}
+
+// policyOf: the server's OWN policy for a command -- the entry of the table, else the default.
+func (cfg serverCfg) policyOf(cmd int64) (auth, enc, integ string, methods []string) {
+	for _, e := range cfg.perCmd {
+		if e.cmd == cmd {
+			return e.auth, e.enc, e.integ, e.methods
+		}
+	}
+	return cfg.auth, cfg.enc, cfg.integ, cfg.methods
+}
+
+func optIntStr(p *int64) string {
+	if p == nil {
+		return "none"
+	}
+	return fmt.Sprint(*p)
 }
 
 type cliObs struct {
@@ -481,7 +510,16 @@ func runScriptedClient(ctx context.Context, conn net.Conn, sc cliScript, ob *cli
 	_ = ad.Set("Authentication", sc.auth)
 	_ = ad.Set("Encryption", sc.enc)
 	_ = ad.Set("Integrity", "OPTIONAL")
-	_ = ad.Set("Command", 60007)
+	if !sc.cmdSet {
+		_ = ad.Set("Command", 60007)
+	} else {
+		if sc.cmd != nil {
+			_ = ad.Set("Command", *sc.cmd)
+		}
+		if sc.acmd != nil {
+			_ = ad.Set("AuthCommand", *sc.acmd)
+		}
+	}
 	_ = ad.Set("RemoteVersion", security.DefaultRemoteVersion)
 	_ = ad.Set("NegotiatedSession", true)
 	_ = ad.Set("NewSession", "YES")
@@ -631,10 +669,43 @@ func runServerCase(c *Ctx, cfg serverCfg, sc cliScript) Case {
 		CryptoMethods: toCiphers(cfg.ciphers), Encryption: security.SecurityLevel(cfg.enc), Integrity: security.SecurityLevel(cfg.integ),
 	}
 	a := security.NewAuthenticator(conf, st)
+	if len(cfg.perCmd) > 0 {
+		// a server that serves different commands under different policies (as server.ServeConn wires it:
+		// a private copy of the command's policy per connection, nil = the default policy)
+		a.ServerConfigForCommand = func(command int) *security.SecurityConfig {
+			for _, e := range cfg.perCmd {
+				if e.cmd == int64(command) {
+					return &security.SecurityConfig{
+						AuthMethods: toMethods(e.methods), Authentication: security.SecurityLevel(e.auth),
+						CryptoMethods: toCiphers(cfg.ciphers), Encryption: security.SecurityLevel(e.enc), Integrity: security.SecurityLevel(e.integ),
+					}
+				}
+			}
+			return nil
+		}
+	}
 	neg, err := a.ServerHandshake(ctx)
 	op := fmt.Sprintf("server auth=%s enc=%s integ=%s methods=%s ciphers=%s key=1 cauth=%s cenc=%s cmethods=%s cciphers=%s ckey=%s masks=%s ok=%s user=%s",
 		strOrTilde(cfg.auth), strOrTilde(cfg.enc), strOrTilde(cfg.integ), joinOrDash(cfg.methods), joinOrDash(cfg.ciphers),
 		strOrTilde(sc.auth), strOrTilde(sc.enc), joinOrDash(sc.methods), joinOrDash(sc.ciphers), sc.key, intsOrDash(sc.masks), joinOrDash(sc.ok), strOrTilde(sc.user))
+	sentCmd := int64(60007) // what the request names as its command (absent: the zero value)
+	if sc.cmdSet {
+		sentCmd = 0
+		if sc.cmd != nil {
+			sentCmd = *sc.cmd
+		}
+	}
+	if len(cfg.perCmd) > 0 {
+		var es []string
+		for _, e := range cfg.perCmd {
+			es = append(es, fmt.Sprintf("%d:%s:%s:%s:%s", e.cmd, strOrTilde(e.auth), strOrTilde(e.enc), strOrTilde(e.integ), joinOrDash(e.methods)))
+		}
+		cs, as := optIntStr(sc.cmd), optIntStr(sc.acmd)
+		if !sc.cmdSet {
+			cs, as = "60007", "none"
+		}
+		op += fmt.Sprintf(" pc=%s cmd=%s acmd=%s", strings.Join(es, "/"), cs, as)
+	}
 	var real string
 	if err != nil {
 		cb.Close()
@@ -662,11 +733,36 @@ func runServerCase(c *Ctx, cfg serverCfg, sc cliScript) Case {
 		ckey := ob.key
 		mu.Unlock()
 		real = outcomeLine(neg, st, ranOK) + " user=" + strOrTilde(neg.User)
+		kp := "C03:server:"
+		if len(cfg.perCmd) > 0 {
+			kp = "C03:server:percmd:"
+		}
 		viol := func(key, what, exp, obs string) {
-			c.Violate(Violation{Property: "C03", Key: "C03:server:" + key, What: what, Ops: []string{op}, Expected: exp, Observed: obs})
+			c.Violate(Violation{Property: "C03", Key: kp + key, What: what, Ops: []string{op}, Expected: exp, Observed: obs})
+		}
+		// "its own policy": with per-command policies, the policy of the command this handshake is FOR --
+		// the command the server reports as negotiated (and a dispatching server goes on to run). From
+		// here on cfg is that policy.
+		forCmd := sentCmd
+		if neg.ClientConfig != nil {
+			forCmd = int64(neg.ClientConfig.Command)
+		}
+		dflt := cfg
+		cfg.auth, cfg.enc, cfg.integ, cfg.methods = dflt.policyOf(forCmd)
+		if len(dflt.perCmd) > 0 {
+			// the request named sentCmd as its command: that command's policy binds as well (the two
+			// coincide unless the server reports another command than the one it was asked for)
+			if a2, e2, i2, _ := dflt.policyOf(sentCmd); forCmd != sentCmd {
+				if a2 == "REQUIRED" && len(ranOK) == 0 {
+					viol("required-auth-not-run", fmt.Sprintf("request for command %d (policy: authentication REQUIRED) succeeded, reported as command %d, and no authentication exchange completed", sentCmd, forCmd), "a method ran", "none")
+				}
+				if (e2 == "REQUIRED" || i2 == "REQUIRED") && !st.IsEncrypted() {
+					viol("required-enc-plaintext", fmt.Sprintf("request for command %d (policy: encryption/integrity REQUIRED) succeeded, reported as command %d, on a plaintext stream", sentCmd, forCmd), "stream AES-GCM protected", "stream.IsEncrypted()=false")
+				}
+			}
 		}
 		if cfg.auth == "REQUIRED" && len(ranOK) == 0 {
-			viol("required-auth-not-run", "server with authentication REQUIRED returned success although no authentication exchange completed", "a method ran", "none")
+			viol("required-auth-not-run", fmt.Sprintf("server whose policy for the negotiated command (%d) marks authentication REQUIRED returned success although no authentication exchange completed", forCmd), "a method ran", "none")
 		}
 		if (cfg.enc == "REQUIRED" || cfg.integ == "REQUIRED") && !st.IsEncrypted() {
 			viol("required-enc-plaintext", "server with encryption/integrity REQUIRED returned success on a plaintext stream", "stream AES-GCM protected", "stream.IsEncrypted()=false")
@@ -725,7 +821,7 @@ func quietStdout() func() {
 
 func runHsAdv(c *Ctx) error {
 	defer quietStdout()()
-	c.Res.Rule = "both roles; every 4x4 local (authentication, encryption) policy plus integrity; method lists over {CLAIMTOBE, PASSWORD, NONE, BOGUS, TOKEN}; peers = the property's deviation catalogue (honest; Authentication/Encryption NO; ECDH key absent/undecodable; no common cipher; un-offered / multi-bit (also with an un-offered lowest bit) / zero / negative method bit; DENIED; clear post-auth ad on a keyed stream; sealed post-auth without agreement; missing or non-zero key message) crossed with each policy, plus random peers drawing every field independently; the scripted peer speaks raw CEDAR frames and records which exchanges completed; distinct by (config, script); non-trivial = peer deviates from honest in ≥1 field"
+	c.Res.Rule = "both roles; every 4x4 local (authentication, encryption) policy plus integrity; method lists over {CLAIMTOBE, PASSWORD, NONE, BOGUS, TOKEN}; peers = the property's deviation catalogue (honest; Authentication/Encryption NO; ECDH key absent/undecodable; no common cipher; un-offered / multi-bit (also with an un-offered lowest bit) / zero / negative method bit; DENIED; clear post-auth ad on a keyed stream; sealed post-auth without agreement; missing or non-zero key message) crossed with each policy, plus random peers drawing every field independently; server role also with PER-COMMAND policies (a strict command with authentication / encryption / integrity REQUIRED, a lax command, three default policies) against requests naming Command and AuthCommand independently (equal, different, DC_AUTHENTICATE / DC_SEC_QUERY with the real command in AuthCommand, a command without entry, either absent), success judged by the policy of the command the server reports as negotiated; the scripted peer speaks raw CEDAR frames and records which exchanges completed; distinct by (config, script); non-trivial = peer deviates from honest in ≥1 field"
 	var cases []Case
 	honestSrv := func(cfg clientCfg) srvScript {
 		return srvScript{auth: "YES", enc: "YES", methods: []string{"CLAIMTOBE"}, ciphers: []string{"AES"}, key: "good",
@@ -923,6 +1019,84 @@ func runHsAdv(c *Ctx) error {
 			}
 		}
 	}
+	// ---- server role with PER-COMMAND policies (ServerConfigForCommand): one server, a strict command
+	// (something REQUIRED), a lax command and a default policy; scripted clients name Command and
+	// AuthCommand independently (equal, different, the DC_AUTHENTICATE / DC_SEC_QUERY forms with the
+	// real command in AuthCommand, a command without an entry, either attribute absent). Success must
+	// meet the policy of the command the negotiation is FOR. ----
+	{
+		const strictCmd, laxCmd, otherCmd = 1, 5, 77
+		cbm := []string{"CLAIMTOBE"}
+		stricts := []pcEntry{
+			{strictCmd, "REQUIRED", "OPTIONAL", "OPTIONAL", cbm},
+			{strictCmd, "OPTIONAL", "REQUIRED", "OPTIONAL", cbm},
+			{strictCmd, "NEVER", "OPTIONAL", "REQUIRED", cbm},
+			{strictCmd, "REQUIRED", "REQUIRED", "OPTIONAL", []string{"PASSWORD", "CLAIMTOBE"}},
+		}
+		laxes := []pcEntry{
+			{laxCmd, "NEVER", "NEVER", "OPTIONAL", cbm},
+			{laxCmd, "OPTIONAL", "OPTIONAL", "OPTIONAL", cbm},
+		}
+		dflts := []serverCfg{
+			{auth: "OPTIONAL", enc: "OPTIONAL", integ: "OPTIONAL", methods: cbm, ciphers: []string{"AES"}},
+			{auth: "REQUIRED", enc: "REQUIRED", integ: "OPTIONAL", methods: cbm, ciphers: []string{"AES"}},
+			{auth: "NEVER", enc: "NEVER", integ: "NEVER", methods: cbm, ciphers: []string{"AES"}},
+		}
+		cmdVals := []*int64{ip(strictCmd), ip(laxCmd), ip(int64(commands.DC_AUTHENTICATE)), ip(int64(commands.DC_SEC_QUERY)), ip(otherCmd), nil}
+		acmdVals := []*int64{nil, ip(strictCmd), ip(laxCmd), ip(0), ip(int64(commands.DC_SEC_QUERY)), ip(otherCmd)}
+		// clients that would rather not authenticate / encrypt, and the honest one
+		pcDevs := []cdev{
+			{"honest", func(s *cliScript) {}},
+			{"auth-never", func(s *cliScript) { s.auth = "NEVER" }},
+			{"unwilling", func(s *cliScript) { s.auth = "OPTIONAL"; s.enc = "NEVER"; s.methods = []string{"NONE"}; s.masks = []int64{0}; s.key = "absent" }},
+			{"enc-never-key-absent", func(s *cliScript) { s.enc = "NEVER"; s.key = "absent" }},
+			{"mask-zero", func(s *cliScript) { s.masks = []int64{0} }},
+		}
+		for di, d0 := range dflts {
+			for si, se := range stricts {
+				for li, le := range laxes {
+					if !c.Thorough() && (di+si+li+int(c.Seed))%2 != 0 {
+						continue
+					}
+					cfg := d0
+					cfg.perCmd = []pcEntry{se, le}
+					if (si+li)%2 == 1 {
+						cfg.perCmd = []pcEntry{le, se}
+					}
+					for _, cv := range cmdVals {
+						for _, av := range acmdVals {
+							for _, d := range pcDevs {
+								sc := honestCli()
+								d.f(&sc)
+								sc.cmdSet, sc.cmd, sc.acmd = true, cv, av
+								cs := runServerCase(c, cfg, sc)
+								cases = append(cases, cs)
+								c.Distinct(cs.Ops[0], true)
+								c.Count("server-percmd:" + d.name)
+								switch {
+								case cv == nil:
+									c.Count("server-percmd:command-absent")
+								case av == nil:
+									c.Count("server-percmd:authcommand-absent")
+								case *cv == *av:
+									c.Count("server-percmd:command=authcommand")
+								case *cv == strictCmd && *av == laxCmd:
+									c.Count("server-percmd:strict-command-lax-authcommand")
+								case *cv == int64(commands.DC_AUTHENTICATE) || *cv == int64(commands.DC_SEC_QUERY):
+									c.Count("server-percmd:dc-form-with-authcommand")
+								default:
+									c.Count("server-percmd:command!=authcommand")
+								}
+								if strings.HasPrefix(cs.Real[0], "ok ") {
+									c.Count("server-percmd:success")
+								}
+							}
+						}
+					}
+				}
+			}
+		}
+	}
 	// two real endpoints, two methods that can run (first one failing on the wire, or not): the
 	// reported method on BOTH ends against the exchange that completed on the wire
 	{
@@ -988,6 +1162,16 @@ func runHsAdv(c *Ctx) error {
 				ok: pick(c, [][]string{{"CLAIMTOBE"}, nil}), user: pick(c, []string{"eve", "root"})}
 			for k := c.Rng.Intn(4); k > 0; k-- {
 				sc.masks = append(sc.masks, pick(c, []int64{bitClaimToBe, bitPassword, 0, bitClaimToBe | bitPassword, -1, 1 << 30}))
+			}
+			if c.Rng.Intn(3) == 0 {
+				// per-command policies, every field drawn independently; the request names any of the
+				// commands (or none) in either attribute
+				for _, k := range []int64{1, 5} {
+					cfg.perCmd = append(cfg.perCmd, pcEntry{k, pick(c, levels), pick(c, levels), pick(c, []string{"OPTIONAL", "REQUIRED", "NEVER"}), pick(c, srvShapes)})
+				}
+				vals := []*int64{ip(1), ip(5), ip(77), ip(int64(commands.DC_AUTHENTICATE)), ip(int64(commands.DC_SEC_QUERY)), ip(0), nil}
+				sc.cmdSet, sc.cmd, sc.acmd = true, pick(c, vals), pick(c, vals)
+				c.Count("server-random-percmd")
 			}
 			cs := runServerCase(c, cfg, sc)
 			cases = append(cases, cs)
